@@ -126,7 +126,8 @@ def train_run(args):
     except Exception as ex:
         rec.events.append({"ev": "Raised", "what": "%s: %s" % (type(ex).__name__, str(ex)[:200])})
     cfg = dict(kind=spec["kind"], monitor=spec["monitor"], patience=spec["patience"], mindelta=spec["mindelta"],
-               epochs=spec["epochs"], L=L, B=B, keyed=True, hasval=spec["hasval"], LV=spec["LV"], focus=spec.get("focus", "stop"))
+               epochs=spec["epochs"], L=L, B=B, keyed=True, hasval=spec["hasval"], LV=spec["LV"], focus=spec.get("focus", "stop"),
+               script=per_epoch, vscript=vtab_epoch)
     return {"tid": tid, "cfg": cfg, "events": rec.events, "spec": spec, "errors": rec.harness_errors}
 
 
